@@ -92,6 +92,7 @@ function transitions(data, names, reduced, keyed) {
     out.push({ label: 'obj: change the key field of the last item', ops: [{ path: ['obj', k1, 'id'], value: 8 }] })
     out.push({ label: 'obj: replace the first item', ops: [{ path: ['obj', ks[0]], value: { id: 7, v: 'rep' } }] })
     out.push({ label: 'obj: add a field', ops: [{ path: ['obj', 'zz'], value: { id: 6, v: 'add' } }] })
+    out.push({ label: 'obj: add a field that sorts first', ops: [{ path: ['obj', '0'], value: { id: 5, v: 'first' } }] })
     if (ks.length >= 2) out.push({ label: 'obj: change two items', ops: [{ path: ['obj', ks[0], 'v'], value: 'c0' }, { path: ['obj', k1, 'v'], value: 'c1' }] })
   }
   const L = data.list
@@ -115,6 +116,17 @@ function transitions(data, names, reduced, keyed) {
       out.push({ label: 'splice in the middle', ops: [{ path: ['list'], splice: [1, 1, [fresh, { id: 10, v: 'n2' }]] }] })
       out.push({ label: 'duplicate key', ops: [{ path: ['list', 1], value: clone(L[0]) }] })
       out.push({ label: 'swap by two item writes', ops: [{ path: ['list', 0], value: clone(L[1]) }, { path: ['list', 1], value: clone(L[0]) }] })
+    }
+    // a list operation that shifts items together with an exact change inside a surviving item (indices after the operation)
+    if (L.length >= 3 && L.every((x) => x && typeof x === 'object' && !Array.isArray(x))) {
+      const fresh2 = { id: 11, v: 'n3' }
+      for (const [ln, sp] of [['shift', [0, 1, []]], ['unshift', [0, 0, [fresh2]]], ['remove the middle', [1, 1, []]]]) {
+        const after = L.slice(); after.splice(sp[0], sp[1], ...sp[2])
+        for (const idx of [0, 1, after.length - 1]) {
+          if (!after[idx] || idx >= after.length) continue
+          out.push({ label: `${ln} + change field of item ${idx}`, ops: [{ path: ['list'], splice: sp }, { path: ['list', idx, 'v'], value: 'chg' + idx }] })
+        }
+      }
     }
     // every permutation of a five-item list by whole-list replacement (the keyed diff keeps a longest common subsequence in place)
     if (!reduced && keyed && L.length === 5) {
@@ -348,7 +360,7 @@ function exploreEquivalence(cs, bundle, bundle2, rep, depth2) {
 // histories interleave updates of the parent's data with updates of the child's data (slot values change, slot
 // instances appear and disappear)
 
-const K_TEMPLATE = '<span>{{p}}|{{val}}|{{style}}</span>'
+const K_TEMPLATE = '<span>{{p}}|{{val}}|{{style}}|{{item2}}</span>'
 const CHILD_TEMPLATES = {
   'comp/single': '<slot u="{{p}}" u-v="{{p}}" v="{{p}}" a="{{q}}" zz="{{q}}" w="{{q}}"/><slot name="s" u="{{p}}" v="{{q}}"/>',
   'comp/repeated': '<block wx:for="{{ps}}"><slot u="{{item}}" u-v="{{item}}" v="{{item}}" a="{{q}}"/></block><slot name="s" u="{{p}}"/>',
@@ -461,6 +473,12 @@ function skeletonB(nodes) {
     const parts = []
     if (Object.keys(ds).length) parts.push('dataset=' + D.showValue(ds))
     if (Object.keys(marks).length) parts.push('marks=' + D.showValue(marks))
+    if (n.tag === 'k') {
+      // plain and model: attributes of the child component reach the property of the normalised name (the compiler's rule)
+      const props = { p: null, val: null, item2: null }
+      for (const a of n.attrs) if (a[0] === 'attr') { const nm = T.dashToCamel(a[1]); if (nm in props) props[nm] = a[2] ?? null } // (an untyped property keeps null for undefined)
+      parts.push('props=' + D.showValue(props))
+    }
     const inner = []
     n.children.forEach((c) => walk(c, inner))
     acc.push(`<${n.tag}${parts.length ? ' ' + parts.join(' ') : ''}>${inner.join('')}</${n.tag}>`)
